@@ -12,7 +12,7 @@ from . import c01
 # externals without hidden state: the three copy routines the library uses, pure string/memory predicates, and the
 # no-return failure paths of assert(); every llvm.* intrinsic except the va_* family is stateless
 ALLOWED_EXTERNALS = ('memcpy', 'memset', 'memmove', 'memcmp', 'memchr', 'strlen', 'strnlen', 'strcmp', 'strncmp',
-                     '__assert_fail', 'abort', '__memcpy_chk', '__memset_chk', '__memmove_chk')
+                     '__assert_fail', 'abort', '__memcpy_chk', '__memset_chk', '__memmove_chk', '__builtin_speculation_safe_value')
 ALLOWED_PREFIXES = ('llvm.',)
 DENIED_PREFIXES = ('llvm.va_',)
 CTX = None
@@ -195,6 +195,21 @@ def run(ctx, tier, res, tag=''):
                     extra_src.append(relp)
     for e in sorted(extra_src):
         res.notes.append('source file %s is under src/ but not part of either library in CMakeLists.txt: not analysed' % e)
+    # (e) "only the objects passed to them": the builders and the VSS finaliser write nothing outside the message they
+    # are given and never write the caller's payload source (measured by the engine; the full image obligations of
+    # these functions belong to C06/C09 and are not repeated here)
+    from . import c06, c09
+    for cm in (c06, c09):
+        tmp = Result('C16', tier, 'proof')
+        cm.run(ctx, tier, tmp, tag)
+        nrel = 0
+        for v in tmp.violations:
+            if any(x in v['key'] for x in (':beyond', ':payload-written', ':fault', ':extent')):
+                nrel += 1
+                res.violation('objects-passed:' + v['key'], v['text'])
+        res.count('builder/finaliser runs checked for writes outside the objects passed' + tag, max(tmp.obligations, 1))
+        if not nrel:
+            res.ok()
     # (d) readers leave shared PDUs untouched
     ts = c01.tasks(ctx)
     outs = pmap(_getter_effects, ts)
